@@ -366,17 +366,17 @@ class ModelsWorld(World):
             return None
         r = self.live[h]
         if r.cls == "sim":
-            k = rng.choice(["simulate", "simulate", "acov", "getters", "kalman", "view"])
+            k = rng.choice(["simulate", "simulate", "acov", "getters", "kalman", "kalman", "view", "iterate"])
             rd = {"k": k, "horizon": rng.choice([0, 1, 2, 4, 7]), "deviation": rng.random() < 0.3, "order": rng.choice([0, 1, 3]),
-                  "v": rng.randrange(3)}
+                  "v": rng.randrange(3), "ant": rng.random() < 0.6}
             if k == "acov" and not TEMPLATES[r.tname]["shocks"]:
                 rd["k"] = "getters"
             if k == "kalman" and not TEMPLATES[r.tname]["measurement"]:
                 rd["k"] = "simulate"
         elif r.cls == "seq":
-            rd = {"k": rng.choice(["simulate", "getters", "view"]), "order": rng.choice(["dates_equations", "equations_dates"]), "v": rng.randrange(3)}
+            rd = {"k": rng.choice(["simulate", "getters", "view", "iterate"]), "order": rng.choice(["dates_equations", "equations_dates"]), "v": rng.randrange(3)}
         else:
-            rd = {"k": rng.choice(["moments", "view"]), "v": rng.randrange(3)}
+            rd = {"k": rng.choice(["moments", "view", "iterate"]), "v": rng.randrange(3)}
         return {"op": "read", "args": {"h": h, "r": rd}}
 
     def _gen_spawn(self, actor, rng, val, flt):
@@ -538,6 +538,25 @@ class ModelsWorld(World):
             self.probes["assign_list_shorter_than_variants"] += 1
         return "ok" if raised is None else "raised:" + raised
 
+    def _check_iteration(self, opname, pred, r):
+        """Splitting a model by iteration: the k-th piece, kept after the loop, is a single-variant model holding variant k."""
+        keys = {"sim": ("params", "stds", "levels", "changes", "solution"), "seq": ("params",), "var": ("system", "fitted")}[r.cls]
+        pieces = list(r.real)
+        whole = self._cheap(r)
+        if len(pieces) != whole["nv"]:
+            raise Violation("split", opname, pred, "", f"iterating a model with {whole['nv']} variants yields {len(pieces)} pieces")
+        ad = ADAPTERS[r.cls]
+        for k, piece in enumerate(pieces):
+            c = ad.cheap(piece)
+            if c["nv"] != 1:
+                raise Violation("split", opname, pred, "", f"piece {k} of the iteration has {c['nv']} variants")
+            for key in keys:
+                d = obs_diff(project(c[key], 0), project(whole[key], k))
+                if d:
+                    raise Violation("split", opname, pred, "", f"piece {k} kept from iterating over the model does not hold variant {k}: {key}{d}")
+        if whole["nv"] > 1:
+            self.probes["iteration_pieces_checked"] += 1
+
     def _check_alter(self, opname, pred, before, after, r):
         """alter_num_variants keeps the first variants as they are and clones the last one into the new slots."""
         keys = {"sim": ("params", "stds", "levels", "changes", "solution"), "seq": ("params",), "var": ("system", "fitted")}[r.cls]
@@ -556,7 +575,10 @@ class ModelsWorld(World):
         pred = self._pred(r)
         opname = "read." + rd["k"]
         try:
-            ADAPTERS[r.cls].read(r.real, r.tname, rd)
+            if rd["k"] == "iterate":
+                self._check_iteration(opname, pred, r)
+            else:
+                ADAPTERS[r.cls].read(r.real, r.tname, rd)
             out = "ok"
         except Exception as e:
             if isinstance(e, (Violation, HarnessError)):
@@ -572,6 +594,9 @@ class ModelsWorld(World):
     # -- spawn ------------------------------------------------------------------------------------
     def _spawn_equivalence(self, opname, pred, parent_obs, child: Replica, what):
         pc, pd = parent_obs
+        want = {"sim": zoo.ir.Simultaneous, "seq": zoo.ir.Sequential, "var": zoo.ir.RedVAR}[child.cls]
+        if type(child.real) is not want:
+            raise Violation("spawn", opname, pred, "", f"{what} is a {type(child.real).__name__}, its source is a {want.__name__}")
         d = obs_diff(pc, self._cheap(child))
         if d:
             raise Violation("spawn", opname, pred, "", f"{what} differs from its source in stored state: {d}")
